@@ -31,6 +31,7 @@ func init() {
 			ruleC02R11(r)
 			r.borrow("C05", func() { ruleC05R6(r) }) // the outage watcher moves the stream to Resuming from every live status (a draining stream must be resumed too)
 			ruleAlwaysCancels(r, "R12")
+			r.borrow("C01", func() { ruleC01R5(r) }) // Close waits for the sent-storage to drain: a resend still running after a resume is outstanding too
 			r.borrow("C07", func() { ruleC07R1(r) }) // the shared store is keyed by stream id (anchor iscp/storage.go)
 			ruleC01R8(r)
 		},
@@ -183,12 +184,100 @@ func ruleC02R3(r *Run) {
 			if !ok {
 				return
 			}
-			// inner select: has a send of a nil *UpstreamChunkResult and at least one Done() receive
+			// inner select: has a send of a nil *UpstreamChunkResult (directly, or of a parameter for which some caller
+			// passes nil — a local deliver(val) closure) and at least one Done() receive
 			var nilSend *ssa.SelectState
 			var dones []ssa.Value
+			var sites []ssa.Instruction // where the marker is decided: the select itself, or the calls passing nil
 			for _, st := range sel.States {
-				if st.Dir == types.SendOnly && isNilConst(st.Send) && typeIs(st.Send.Type(), modPath+"/message", "UpstreamChunkResult") {
-					nilSend = st
+				if st.Dir == types.SendOnly && typeIs(st.Send.Type(), modPath+"/message", "UpstreamChunkResult") {
+					if isNilConst(st.Send) {
+						nilSend = st
+						sites = append(sites, sel)
+					} else if prm, isP := canonVal(st.Send).(*ssa.Parameter); isP && prm.Parent() == fn {
+						idx := -1
+						for i, q := range fn.Params {
+							if q == prm {
+								idx = i
+							}
+						}
+						var calls []ssa.Instruction
+						if fn.Parent() != nil {
+							if val, uses, okU := funcValueUses(fn); okU {
+								for _, u := range uses {
+									if cc := instrCall(u); cc != nil && cc.Value == val {
+										calls = append(calls, u)
+									}
+									// captured by a sibling closure (the goroutine body calls deliver(nil)): calls through its free variable
+									if mc, isMC := u.(*ssa.MakeClosure); isMC {
+										if g, isF := mc.Fn.(*ssa.Function); isF {
+											for bi, b := range mc.Bindings {
+												if b != val || bi >= len(g.FreeVars) {
+													continue
+												}
+												fv := g.FreeVars[bi]
+												withAnon(g, func(h *ssa.Function) {
+													allInstrs(h, func(x ssa.Instruction) {
+														if cc := instrCall(x); cc != nil && (cc.Value == ssa.Value(fv) || canonVal(cc.Value) == val) {
+															calls = append(calls, x)
+														}
+													})
+												})
+											}
+										}
+									}
+									// the closure kept in a local variable: calls through loads of that variable
+									if stv, isSt := u.(*ssa.Store); isSt && stv.Val == val {
+										// the variable itself captured by a sibling closure: calls through loads of its free variable
+										if stv.Addr.Referrers() != nil {
+											for _, ar := range *stv.Addr.Referrers() {
+												mc, isMC := ar.(*ssa.MakeClosure)
+												if !isMC {
+													continue
+												}
+												g, isF := mc.Fn.(*ssa.Function)
+												if !isF {
+													continue
+												}
+												for bi, b := range mc.Bindings {
+													if b != stv.Addr || bi >= len(g.FreeVars) {
+														continue
+													}
+													fv := g.FreeVars[bi]
+													allInstrs(g, func(x ssa.Instruction) {
+														cc := instrCall(x)
+														if cc == nil {
+															return
+														}
+														if ld, isLd := cc.Value.(*ssa.UnOp); isLd && ld.Op == token.MUL && ld.X == ssa.Value(fv) {
+															calls = append(calls, x)
+														}
+													})
+												}
+											}
+										}
+										for _, ld := range loadsOfAddr(stv.Addr) {
+											if ld.Referrers() != nil {
+												for _, r2 := range *ld.Referrers() {
+													if cc := instrCall(r2); cc != nil && cc.Value == ld {
+														calls = append(calls, r2)
+													}
+												}
+											}
+										}
+									}
+								}
+							}
+						} else {
+							calls = p.staticCallSites(fn)
+						}
+						for _, c := range calls {
+							if cc := instrCall(c); cc != nil && idx >= 0 && idx < len(cc.Args) && isNilConst(cc.Args[idx]) {
+								nilSend = st
+								sites = append(sites, c)
+							}
+						}
+					}
 				}
 				if st.Dir == types.RecvOnly {
 					if cx := doneCtx(st.Chan); cx != nil {
@@ -206,51 +295,57 @@ func ruleC02R3(r *Run) {
 				r.Check(name+" timeout marker", true, p.pos(sel.Pos()), name, "the timeout marker is sent without competing Done() cases")
 				return
 			}
-			// is there a dominating sequential Err() test on one of the watched contexts' roots?
-			okTest := false
+			// is there a dominating sequential Err() test on one of the watched contexts' roots (before every site)?
+			okTest := true
 			var tested []string
-			allInstrs(fn, func(x ssa.Instruction) {
-				c, ok := x.(*ssa.Call)
-				if !ok || !c.Call.IsInvoke() || c.Call.Method.Name() != "Err" || !isContextType(c.Call.Value.Type()) {
-					return
-				}
-				if !dominatesInstr(c, sel) {
-					return
-				}
-				// result must feed an If (possibly through a comparison)
-				feeds := false
-				if c.Referrers() != nil {
-					for _, ref := range *c.Referrers() {
-						switch y := ref.(type) {
-						case *ssa.BinOp:
-							if y.Referrers() != nil {
-								for _, r2 := range *y.Referrers() {
-									if ifs, isIf := r2.(*ssa.If); isIf {
-										// polarity: the marker is sent only on the edge where Err() is nil
-										if ne := nilEdge(ifs, ssa.Value(c)); ne != nil && edgeDominates(ifs.Block(), ne, sel.Block()) {
-											feeds = true
+			for _, site := range sites {
+				okSite := false
+				allInstrs(site.Parent(), func(x ssa.Instruction) {
+					c, ok := x.(*ssa.Call)
+					if !ok || !c.Call.IsInvoke() || c.Call.Method.Name() != "Err" || !isContextType(c.Call.Value.Type()) {
+						return
+					}
+					if !dominatesInstr(c, site) {
+						return
+					}
+					// result must feed an If (possibly through a comparison)
+					feeds := false
+					if c.Referrers() != nil {
+						for _, ref := range *c.Referrers() {
+							switch y := ref.(type) {
+							case *ssa.BinOp:
+								if y.Referrers() != nil {
+									for _, r2 := range *y.Referrers() {
+										if ifs, isIf := r2.(*ssa.If); isIf {
+											// polarity: the marker is sent only on the edge where Err() is nil
+											if ne := nilEdge(ifs, ssa.Value(c)); ne != nil && edgeDominates(ifs.Block(), ne, site.Block()) {
+												feeds = true
+											}
 										}
 									}
 								}
+							case *ssa.Call: // errors.Is(ctx.Err(), …)
+								feeds = true
 							}
-						case *ssa.Call: // errors.Is(ctx.Err(), …)
-							feeds = true
 						}
 					}
-				}
-				if !feeds {
-					return
-				}
-				tv := canonVal(c.Call.Value)
-				for _, d := range dones {
-					for _, rt := range ctxRoots(d) {
-						if canonVal(rt) == tv {
-							okTest = true
-							tested = append(tested, pathOf(c.Call.Value).String())
+					if !feeds {
+						return
+					}
+					tv := canonVal(c.Call.Value)
+					for _, d := range dones {
+						for _, rt := range ctxRoots(d) {
+							if canonVal(rt) == tv {
+								okSite = true
+								tested = append(tested, pathOf(c.Call.Value).String())
+							}
 						}
 					}
+				})
+				if !okSite {
+					okTest = false
 				}
-			})
+			}
 			r.Check(name+" timeout marker", okTest, p.pos(sel.Pos()), name,
 				fmt.Sprintf("select sends the nil (timeout) result while watching %d Done() channel(s); dominating sequential Err() test on a watched context: %v %v", len(dones), okTest, tested),
 				"entry: "+name, "select: "+p.pos(sel.Pos()))
@@ -565,6 +660,24 @@ func ruleC02R8(r *Run) {
 						}
 					}
 				})
+				// or hands what it got to a call (a local deliver(val) closure): the received value is an argument
+				if !forwards && sel.Referrers() != nil {
+					for _, ref := range *sel.Referrers() {
+						ex, isEx := ref.(*ssa.Extract)
+						if !isEx || ex.Index < 2 || ex.Referrers() == nil || !typeIs(ex.Type(), modPath+"/message", "UpstreamChunkResult") {
+							continue
+						}
+						for _, r2 := range *ex.Referrers() {
+							if cc := instrCall(r2); cc != nil {
+								for _, a := range cc.Args {
+									if a == ssa.Value(ex) {
+										forwards = true
+									}
+								}
+							}
+						}
+					}
+				}
 				if !forwards {
 					continue
 				}
